@@ -361,6 +361,9 @@ META = (META[0] + ' REFQMOVE (an rvalue-qualified accessor hands the member it r
 META = (META[0] + ' VISITCAT (visit hands each alternative to the visitor through the rvalue accessor of its by-value proxy, the only one that keeps the variant argument value category).', META[1])
 
 
+META = (META[0] + ' REFQCAT (each cv/ref-qualified overload of and_then / or_else / value_or hands the stored value on with the value category of *this); PTRSWAP (optional<T&>::swap exchanges the pointers, never the referents).', META[1])
+
+
 def run(chk, tier):
     db = D.load("checks")
     from ..rules import params as _PR
@@ -377,6 +380,11 @@ def run(chk, tier):
     from ..rules import extra10 as _X10
     if _X10.visit_category_area(chk, db, ['_variant/']) < 1:      # VISITCAT
         chk.unknown_instance('VISITCAT', 'etl::visit', 'no generic lambda that hands proxy values to the forwarded visitor found')
+    from ..rules import extra12 as _X12
+    if _X12.refq_category_area(chk, db, ['_optional/', '_variant/', '_expected/']) < 8:      # REFQCAT
+        chk.analysis_broken('REFQCAT: fewer than 8 ref-qualified overloads that hand their value on (floor 8)')
+    if _X12.pointer_swap_rule(chk, db) < 1:      # PTRSWAP
+        chk.unknown_instance('PTRSWAP', 'etl::optional<T &>::swap', 'the reference specialisation of optional has no swap')
     constr_rule(chk, db)
     from ..rules import extra8 as _X8r
     if _X8r.refq_move_area(chk, db, ['_variant/', '_optional/', '_expected/']) < 6:      # REFQMOVE
